@@ -6,7 +6,7 @@ git -C /repo worktree remove --force $W 2>/dev/null
 git -C /repo worktree add -q --detach $W HEAD || exit 2
 for s in /verif/benign/set*/; do
   rm -rf /tmp/mut/BEN-out; mkdir -p /tmp/mut/BEN-out
-  for d in $s/benign-*.diff; do cp $d /tmp/mut/BEN-out/$(basename $s)-$(basename $d | sed 's/^benign-//'); done
+  for d in $s/benign-[0-9].diff $s/benign-*-rebased.diff; do [ -f "$d" ] || continue; [ "$(basename $d)" = "benign-5.diff" ] && [ -f "$s/benign-5-rebased.diff" ] && continue; cp $d /tmp/mut/BEN-out/$(basename $s)-$(basename $d | sed 's/^benign-//'); done
   for d in /tmp/mut/BEN-out/*.diff; do mv $d /tmp/mut/BEN-out/benign-$(basename $d); done
   /verif/tools_benign.sh BEN
 done
